@@ -148,7 +148,7 @@ def isomorphic(rep):
             # it sits in the else-branch of `A.n == B.n`  => sizes differ; with |G1| <= |G2| => G1 strictly smaller => constant False
             pm = parent_map(fi.node)
             gs = guards_of(pm, c, fi.node)
-            unequal = any(isinstance(t, ast.Compare) and isinstance(t.ops[0], ast.Eq) and not sense and
+            unequal = any(isinstance(t, ast.Compare) and ((isinstance(t.ops[0], ast.Eq) and not sense) or (isinstance(t.ops[0], ast.NotEq) and sense)) and
                           {norm(t.left), norm(t.comparators[0])} == {f"{a}.number_of_nodes()", f"{b}.number_of_nodes()"}
                           for t, sense in gs)
             const_false = smaller_first and unequal
@@ -175,7 +175,7 @@ def helpers(rep):
         for m, c in s.methods:
             gs = [(norm(t).replace(" ", ""), sense) for t, sense in guards_of(pm, c, fi.node)]
             induced = ("check_type=='induced'", True) in gs
-            mono = ("check_type=='induced'", False) in gs
+            mono = ("check_type=='induced'", False) in gs or ("check_type!='induced'", True) in gs
             ok = (m == "subgraph_is_isomorphic" and induced) or (m == "subgraph_is_monomorphic" and mono)
             rep.ob("O7.1", "R2", fi, ok, f"{m} under {gs}", "induced containment uses subgraph_is_isomorphic, monomorphic containment subgraph_is_monomorphic", node=c)
         rep.ob("O7.1", "R2", fi, {m for m, _ in s.methods} == {"subgraph_is_isomorphic", "subgraph_is_monomorphic"},
